@@ -57,6 +57,19 @@ def gen_cases(rng, tier, scale):
                 parts['outer'] = frame % tpl
             cases.append(rcase(f'{grp}{name}', main, data, partials=parts, entry=0, kind=name, grp=grp, rep=rep, wrap=slot,
                                tags=['in-partial:' + slot]))
+    # compile-time whitespace flags: a `~` or a standalone tag in A must not reach past the bar into B (and vice versa);
+    # atoms are tags with tildes, both comment spellings, text and blank runs
+    WSA = ['{{v~}}', '{{~v}}', '{{v}}', ' k', 'x', ' ', '  ', '\n', '{{!-- c --}}', '{{! c }}', '{{#if yes~}} y {{~/if}}', '{{#if yes}}\n y\n{{/if}}',
+           '{{~#each two~}} {{this}} {{/each}}', '{{> leaf~}}', '{{{{raw}}}} r {{{{/raw}}}}', '{{~!-- d --}}'.replace('~!', '!')]
+    mws = (150 if tier == 'quick' else 3000) * scale
+    for k in range(mws):
+        data = {'v': 'V', 'yes': True, 'two': [1, 2]}
+        A = ''.join(rng.choice(WSA) for _ in range(rng.randint(2, 5)))
+        B = ''.join(rng.choice(WSA) for _ in range(rng.randint(2, 5)))
+        rep = rng.randint(2, 4)
+        grp = f'ws{k}'
+        for name, tpl in (('AB', A + '|' + B), ('A', A + '|'), ('B', '|' + B), ('S', '|' + A + '|'), ('R', '|' + (A + '|') * rep)):
+            cases.append(rcase(f'{grp}{name}', tpl, data, partials={'leaf': 'L'}, entry=0, kind=name, grp=grp, rep=rep, tags=['whitespace-flags']))
     # a construct that writes nothing leaves no trace: T' = T with an empty construct inserted directly in front of a
     # non-blank text character (so it is never alone on its line) renders like T — inside indented partials, partials
     # entered in the middle of a line, after `~` tags, inside blocks
